@@ -4,7 +4,7 @@
    0 beyond the number of intervals); interp = the piecewise-linear function of a breakpoint list; functions sampled on a
    common breakpoint list xs (values us) with the exact integrals norm1 / norm2sq / inner and the maximum normsup.
    Algorithm models (C18_Model.v): transcriptions of Persistence_landscape.h / Persistence_landscape_on_grid.h. *)
-From Coq Require Import List ZArith QArith Permutation Sorted.
+From Coq Require Import List ZArith QArith Permutation Sorted Lia.
 Require Import C18_Model C18_Proofs.
 Import ListNotations.
 Local Open Scope Q_scope.
@@ -97,6 +97,39 @@ Print Assumptions C18_pl_scale_pointwise.
 Theorem C18_scale_level_pointwise : forall c f t, interp (scale_level c f) t == c * interp f t.
 Proof. exact scale_level_pointwise. Qed.
 Print Assumptions C18_scale_level_pointwise.
+
+(* algorithm model: compute_value_at_a_given_point (support test + bisection + function_value) on a level with strictly
+   increasing abscissae whose two outermost points on each side have ordinate 0 returns, for every x between the
+   sentinels, the PL interpolation of the stored breakpoints; the fuel never runs out *)
+Theorem C18_value_at_is_interp : forall l x, xsorted l -> (3 <= length l)%nat ->
+  snd (nthp l 0) == 0 -> snd (nthp l 1) == 0 -> snd (nthp l (length l - 2)) == 0 -> snd (nthp l (length l - 1)) == 0 ->
+  fst (nthp l 0) < x -> x < fst (nthp l (length l - 1)) ->
+  exists v, value_at [l] 0 x = Some v /\ v == interp l x.
+Proof. exact value_at_is_interp. Qed.
+Print Assumptions C18_value_at_is_interp.
+Example C18_value_at_is_interp_nonvacuous :
+  let l := [(- INF, 0); (0, 0); (3 # 1, 3 # 1); (6 # 1, 0); (INF, 0)] in
+  xsorted l /\ (3 <= length l)%nat /\ snd (nthp l 0) == 0 /\ snd (nthp l 1) == 0 /\ snd (nthp l (length l - 2)) == 0 /\
+  snd (nthp l (length l - 1)) == 0 /\ fst (nthp l 0) < 2 # 1 /\ 2 # 1 < fst (nthp l (length l - 1)).
+Proof.
+  repeat split; try reflexivity; try (simpl; lia).
+  unfold xsorted; simpl. repeat constructor; reflexivity.
+Qed.
+
+(* algorithm model: abs() on one level (zero crossings inserted by find_zero_of_a_line_segment_between_those_two_points)
+   is the pointwise absolute value of the PL function, at every t *)
+Theorem C18_abs_level_pointwise : forall l t, xsorted l -> snd (nthp l 0) == 0 -> fst (nthp l 0) = - INF ->
+  interp (abs_level l) t == qabs (interp l t).
+Proof. exact abs_level_pointwise. Qed.
+Print Assumptions C18_abs_level_pointwise.
+Example C18_abs_level_pointwise_nonvacuous :
+  let l := [(- INF, 0); (0, 0); (1, 1); (3 # 1, -1); (4 # 1, 0); (INF, 0)] in
+  xsorted l /\ snd (nthp l 0) == 0 /\ fst (nthp l 0) = - INF /\
+  abs_level l = [(- INF, 0); (0, 0); (1, 1); (2 # 1, 0); (3 # 1, 1); (4 # 1, 0); (INF, 0)].
+Proof.
+  repeat split; try reflexivity.
+  unfold xsorted; simpl. repeat constructor; reflexivity.
+Qed.
 
 (* on a segment the absolute value of a linear function stays below the larger end value: the sup distance of PL
    functions is attained at a breakpoint *)
@@ -212,6 +245,15 @@ Theorem C18_grid_value_unrepaired_out_of_bounds_refuted :
     grid_value false (grid_setup D gmin gmax npts 0) gmin gmax level x = None.
 Proof. exact grid_value_unrepaired_reads_out_of_bounds. Qed.
 Print Assumptions C18_grid_value_unrepaired_out_of_bounds_refuted.
+
+(* the repaired evaluation (grid_value true) at every grid point gmin + i*dx returns the value stored for that grid point
+   and level (0 when the level is absent) — what the unrepaired test got wrong *)
+Theorem C18_grid_value_at_grid_point : forall vals gmin gmax level (i : nat),
+  gmin < gmax -> (2 <= length vals)%nat -> (i <= length vals - 1)%nat ->
+  grid_value true vals gmin gmax level (gmin + inject_Z (Z.of_nat i) * ((gmax - gmin) / inject_Z (Z.of_nat (length vals - 1))))
+  = Some (gval0 vals i level).
+Proof. exact grid_value_at_grid_point. Qed.
+Print Assumptions C18_grid_value_at_grid_point.
 
 (* ---------------------------------------------------------------- not proved: compared per input by the correspondence run *)
 Definition valid_diagram (D : list (Q * Q)) : Prop := forall bd, In bd D -> fst bd <= snd bd.
